@@ -63,8 +63,9 @@ def make_crystal(rng, kind):
             n = rng.choice(RGROUPS)
             sg = SpaceGroup(n, choice="H")
             a_h = rng.uniform(11, 16)
-            # c/a = sqrt(3/2) is the hexagonal description of a rhombohedral cell with alpha = 90 degrees (metrically cubic)
-            uc = UnitCell.hexagonal(a_h, a_h * math.sqrt(1.5) if rng.random() < 0.2 else rng.uniform(8, 14))
+            # c/a = sqrt(3/2) is the hexagonal description of a rhombohedral cell with alpha = 90 degrees (metrically cubic); c = a and
+            # strongly elongated cells are legal too
+            uc = UnitCell.hexagonal(a_h, rng.choice([a_h * math.sqrt(1.5), a_h, rng.uniform(22, 32), rng.uniform(8, 14), rng.uniform(8, 14), rng.uniform(8, 14)]))
         else:
             n, uc = rng.choice([(1, "tric"), (2, "tric"), (4, "mono"), (14, "mono"), (19, "ortho"), (33, "ortho"), (62, "ortho"), (76, "tetra"), (143, "hex"), (198, "cubic")])
             sg = SpaceGroup(n)
@@ -80,7 +81,7 @@ def make_crystal(rng, kind):
         els = [Element[8], Element[1], Element[1]]
         frac = uc.to_fractional(cart)
         # sometimes an extra atom ON a special position (inversion centre at the origin / the three-fold axis through it)
-        if rng.random() < 0.4 and (kind == "trigonal" or n in (2, 14, 62, 143)):
+        if rng.random() < (0.7 if kind == "trigonal" else 0.4) and (kind == "trigonal" or n in (2, 14, 62, 143)):
             z0 = rng.choice([0.0, rng.uniform(0.05, 0.95)]) if (kind == "trigonal" or n == 143) else 0.0
             els = els + [Element[18]]
             frac = np.vstack([frac, [[0.0, 0.0, z0]]])
@@ -220,9 +221,44 @@ def correspond(ctx):
     ctx.count("correspondence_lines", len(cases))
 
 
+NONSTANDARD_CIF = """data_shifted
+_cell_length_a 6.1
+_cell_length_b 7.2
+_cell_length_c 8.3
+_cell_angle_alpha 82.0
+_cell_angle_beta 97.0
+_cell_angle_gamma 101.0
+_symmetry_Int_Tables_number 2
+_symmetry_space_group_name_H-M 'P -1 (origin shifted)'
+loop_
+_symmetry_equiv_pos_as_xyz
+'x,y,z'
+'1/4-x,-y,-z'
+loop_
+_atom_site_label
+_atom_site_type_symbol
+_atom_site_fract_x
+_atom_site_fract_y
+_atom_site_fract_z
+C1 C 0.31 0.22 0.13
+O1 O 0.52 0.41 0.37
+"""
+
+
 def judge(seed):
     import random
+    import logging
     rng = random.Random(seed)
+    # somewhere else in the same process a CIF in a NON-tabulated setting has been read (its operations are kept as given): that must
+    # not change what P1 means for any other crystal
+    from chmpy.crystal import Crystal as _Crystal
+    logging.disable(logging.WARNING)
+    try:
+        other = _Crystal.from_cif_string(NONSTANDARD_CIF)
+        if len(other.unit_cell_atoms()["element"]) != 4:
+            return "nonstandard-cif", f"P-1 with the inversion centre at (1/8,0,0): {len(other.unit_cell_atoms()['element'])} unit-cell atoms, expected 4", True
+    finally:
+        logging.disable(logging.NOTSET)
     kind = rng.choice(["super", "super", "large", "trigonal", "oriented", "oriented-back"])
     if kind == "oriented-back":
         # rhombohedral setting first, molecules looked at THERE, then back to hexagonal axes and expanded
